@@ -951,6 +951,10 @@ func run(ctx *Ctx) *Result {
 		if f["settled"] == "1" && !empty {
 			res.Disagree(stream+": settledB holds but drc prints changes (contradicts ios_F2_quiet)", c, out, "settled=1")
 		}
+		// IdentityDiffer (hypothesis of ios_F2_idempotent_exact), on the real library: equal lists get the identity script
+		if f["iddiffer"] == "0" {
+			res.Disagree(stream+": the differ's script for two access lists that are equal line by line is not the identity (IdentityDiffer violated)", c, out, "iddiffer=0")
+		}
 		// ios_route_plan_phases: the route commands of the (identical) script have the shape of NA.Route.routes_covered
 		if f["routecmds"] != "0" && f["routecmds"] != "" {
 			res.Count(fmt.Sprintf("%s:route-commands:phaseA/phaseB(driver)=%s,keys=%s", stream, f["routeshape"], f["routekeys"]))
@@ -1191,6 +1195,13 @@ func run(ctx *Ctx) *Result {
 				// ios_F2_idempotent_partial: first pair in the class of the end-to-end theorem; the second
 				// compare is statically settled (then ios_F2_quiet says: empty) or not
 				res.Count("second-compare-after-wfB-run:settledB=" + f2["settled"] + ":" + f2["settledwhy"])
+				// ios_F2_idempotent_exact: the identity script on every compared pair ⇒ empty second script (no hypothesis on the planner)
+				allEq := f2["eqpairs"] == f2["cmppairs"]
+				allId := f2["idpairs"] == f2["cmppairs"]
+				res.Count(fmt.Sprintf("second-compare-after-wfB-run:first-run-without-suppressed-move=%s,all-pairs-equal=%v,identity-scripts=%v", f["nosuppr"], allEq, allId))
+				if v2 == "ok" && allId && strings.TrimSpace(out2) != "" {
+					res.Disagree("F2: wfB run, identity scripts on every pair of the second compare, yet drc prints changes (contradicts ios_F2_idempotent_exact)", c, out2, "")
+				}
 				// ios_F2_idempotent_partial: after a wfB run every conjunct of settledB except the one about the
 				// line planner (which depends on the Myers scripts of the second compare) is a theorem
 				if v2 == "ok" && f2["settled"] != "1" && f2["settledwhy"] != "line-planner-not-quiet" {
